@@ -262,8 +262,16 @@ func (ds *DataSchema) GenDatum(r *rand.Rand, s *refavro.Schema, o DatumOpts, out
 			}
 		}
 		if s.LogicalType == "timestamp-millis" || s.LogicalType == "timestamp-micros" {
-			// keep inside int64-nanosecond representability
-			v = Int(r, -9000000000000, 9000000000000, ModeRandom)
+			// instants of the years 0001-9999 in the field's unit; one in four within the years an int64 of nanoseconds covers
+			lim := int64(253402300799000) // 9999-12-31 in milliseconds
+			lo := int64(-62135596800000)  // 0001-01-01
+			if s.LogicalType == "timestamp-micros" {
+				lim, lo = lim*1000, lo*1000
+			}
+			if r.IntN(4) == 0 {
+				lim, lo = lim/40, -lim/40
+			}
+			v = Int(r, lo+1, lim, ModeRandom)
 		}
 		if s.Type == "int" {
 			return int32(v)
